@@ -59,11 +59,11 @@ def random_schedule(rng, kind, senders, sends, extra=()):
 
 
 def random_faults(rng, nconns=6, p=0.5, kind="s"):
-    """d<k> silent drop after k messages, r<k> / t<k> the recipient of transaction k refused with 550 / 450, x<k> the k-th
+    """d<k> silent drop after k messages, r<k> / t<k> the recipient of transaction k refused with 550 / 450, a<k> the DATA command of transaction k answered 451, x<k> the k-th
     NOOP answered 421 + close, s<k> the k-th NOOP answered only after 1.5 x the client's read timeout (sync client only:
     the tokio client has no read deadline, which is the recorded C20 finding), w<k> the end of data of the k-th message answered
     only after 1.5 x the configured timeout (tokio only: the send takes longer, nothing else changes)"""
-    kinds = ['d0', 'd1', 'd1', 'd2', 'r1', 'r2', 'r1', 't1', 't2', 'x1', 'x2'] + (['s1', 's1'] if kind == "s" else ['w1', 'w1', 'w2'])
+    kinds = ['d0', 'd1', 'd1', 'd2', 'r1', 'r2', 'r1', 't1', 't2', 'a1', 'a1', 'a2', 'x1', 'x2'] + (['s1', 's1'] if kind == "s" else ['w1', 'w1', 'w2'])
     out = []
     for c in range(nconns):
         if rng.random() < p:
